@@ -26,13 +26,15 @@ class PartHandler(PartFlowController):
 
     def __init__(self, name = None, upstream = None, cycle_time = 0, value = 0):
         self._waiting_for_part_since = None
-        super().__init__(name, upstream, value)
         self.cycle_time = cycle_time
         self._next_cycle_time_offset = 0
         self._part = None
         self._output = None
         self._received_part_callbacks = []
         self._waiting_for_downstream_space = False
+        # Last: registers with the System which may initialize this
+        # Asset right away if the simulation is already running.
+        super().__init__(name, upstream, value)
 
     def initialize(self, env):
         super().initialize(env)
